@@ -16,6 +16,8 @@ enum M {
     C,
     #[serde(rename = "a.S")]
     S { s: String },
+    #[serde(rename = "a.T")]
+    T { n: u32 },
 }
 
 #[derive(Debug, Deserialize, Serialize, PartialEq, Clone)]
@@ -114,13 +116,18 @@ impl zlink_core::Service for Svc {
     type MethodCall<'de> = M;
     type ReplyParams<'ser> = P;
     type ReplyStreamParams = P;
-    type ReplyStream = futures_util::stream::Empty<Reply<P>>;
+    type ReplyStream = futures_util::stream::Iter<std::vec::IntoIter<Reply<P>>>;
     type ReplyError<'ser> = E;
     async fn handle<'ser>(&'ser mut self, call: Call<Self::MethodCall<'_>>) -> MethodReply<Self::ReplyParams<'ser>, Self::ReplyStream, Self::ReplyError<'ser>> {
         match call.method() {
             M::B { a } => { SERVED.with(|s| s.borrow_mut().push(*a)); MethodReply::Single(Some(P { a: *a })) }
             M::C => MethodReply::Single(None),
             M::S { .. } => MethodReply::Error(E::Bad { code: 7 }),
+            M::T { n } => {
+                let n = *n;
+                let items: Vec<Reply<P>> = (0..n).map(|i| Reply::new(Some(P { a: 1000 + i })).set_continues(Some(i + 1 < n))).collect();
+                MethodReply::Multi(futures_util::stream::iter(items))
+            }
         }
     }
 }
@@ -140,6 +147,10 @@ fn oracle_server(wire: &[u8]) -> Vec<String> {
             M::B { a } => format!(r#"{{"parameters":{{"a":{a}}},"continues":false}}"#),
             M::C => r#"{"continues":false}"#.to_string(),
             M::S { .. } => r#"{"error":"a.Bad","parameters":{"code":7}}"#.to_string(),
+            M::T { n } => {
+                for i in 0..*n { out.push(format!(r#"{{"parameters":{{"a":{}}},"continues":{}}}"#, 1000 + i, i + 1 < *n)); }
+                continue;
+            }
         });
     }
     out
@@ -470,6 +481,86 @@ fn search_fair(seed: u64, budget: usize) -> Option<Value> {
     None
 }
 
+// ---------------------------------------------------------------------------------------------
+// C08 / C09 / C10: a real Server with faulty and streaming clients.  Per connection the expectation is
+// independent of every other connection (non-interference): replies for its calls in order until its first
+// undecodable frame or its first failing write; a streaming call yields its items, then the connection resumes.
+fn run_faults(wires: &[Vec<u8>], fail_write_at: &[Option<usize>], cuts: &[usize]) -> (Vec<Vec<String>>, Vec<Vec<String>>) {
+    let socks: Vec<ScriptedSocket> = wires.iter().zip(fail_write_at).map(|(w, f)| {
+        let s = ScriptedSocket::new(w, cuts);
+        if let Some(k) = f { s.0.borrow_mut().fail_writes = vec![*k]; }
+        s
+    }).collect();
+    let scripts: Vec<_> = socks.iter().map(|s| s.0.clone()).collect();
+    let mut conns = socks;
+    conns.reverse();
+    let server = zlink_core::Server::new(ScriptedListener { conns }, Svc);
+    let mut fut = Box::pin(server.run());
+    let mut idle = 0;
+    for _ in 0..20_000 {
+        let before: usize = scripts.iter().map(|s| { let s = s.borrow(); s.log.len() + s.consumed + s.writes }).sum();
+        if let Poll::Ready(_) = poll_once(fut.as_mut()) { break; }
+        let after: usize = scripts.iter().map(|s| { let s = s.borrow(); s.log.len() + s.consumed + s.writes }).sum();
+        if before == after { idle += 1; if idle > 12 { break; } } else { idle = 0; }
+    }
+    let expected: Vec<Vec<String>> = wires.iter().zip(fail_write_at).map(|(w, f)| {
+        let mut e = oracle_server(w);
+        if let Some(k) = f { e.truncate(*k); }
+        e
+    }).collect();
+    let got = scripts.iter().map(|s| {
+        let flat: Vec<u8> = s.borrow().log.iter().flatten().copied().collect();
+        frames_of(&flat).iter().map(|f| String::from_utf8_lossy(f).to_string()).collect()
+    }).collect();
+    (expected, got)
+}
+/// a healthy connection (only decodable calls, ends on a frame boundary, no failing write) must get exactly its
+/// replies whatever the others do; a faulty one may lose replies from its fault on: any prefix is fine
+fn faults_ok(wires: &[Vec<u8>], fails: &[Option<usize>], exp: &[Vec<String>], got: &[Vec<String>]) -> bool {
+    for i in 0..wires.len() {
+        let w = &wires[i];
+        let healthy = fails[i].is_none() && (w.is_empty() || *w.last().unwrap() == 0)
+            && frames_of(w).iter().all(|f| serde_json::from_slice::<Call<M>>(f).is_ok());
+        if healthy { if exp[i] != got[i] { return false; } }
+        else if got[i].len() > exp[i].len() || got[i][..] != exp[i][..got[i].len()] { return false; }
+    }
+    true
+}
+fn search_faults(seed: u64, budget: usize) -> Option<Value> {
+    let mut rng = Rng(seed.wrapping_mul(0x9E3779B97F4A7C15) | 1);
+    let calls = [
+        r#"{"method":"a.B","parameters":{"a":1}}"#, r#"{"method":"a.C"}"#, r#"{"method":"a.C","oneway":true}"#,
+        r#"{"method":"a.B","parameters":{"a":5},"oneway":true}"#, r#"{"method":"a.S","parameters":{"s":"x"}}"#,
+        r#"{"method":"a.T","parameters":{"n":2},"more":true}"#, r#"{"method":"a.T","parameters":{"n":0},"more":true}"#,
+        r#"{"method":"a.T","parameters":{"n":3},"more":true}"#, r#"{"method":"a.T","parameters":{"n":2},"oneway":true}"#,
+        r#"{"method":"a.Nope"}"#, r#"{"method":"a.B","parameters":{"a":"wrong"}}"#, "garbage", r#"{"method":"a.B","parameters":{"a":2}} "#,
+    ];
+    for _ in 0..budget {
+        let nconn = 1 + rng.below(3);
+        let mut wires = Vec::new();
+        let mut fails = Vec::new();
+        for _ in 0..nconn {
+            let mut w = Vec::new();
+            for _ in 0..rng.below(6) {
+                // faults are rarer than good calls
+                let k = if rng.below(5) == 0 { 9 + rng.below(4) } else { rng.below(9) };
+                w.extend_from_slice(calls[k].as_bytes());
+                w.push(0);
+            }
+            if rng.below(6) == 0 { let cut = rng.below(w.len() + 1); w.truncate(cut); } // EOF mid-burst / mid-frame
+            wires.push(w);
+            fails.push(if rng.below(4) == 0 { Some(rng.below(4)) } else { None });
+        }
+        let cuts: Vec<usize> = match rng.below(3) { 0 => vec![], 1 => vec![1 + rng.below(7)], _ => (0..3).map(|_| 1 + rng.below(60)).collect() };
+        let (exp, got) = run_faults(&wires, &fails, &cuts);
+        if !faults_ok(&wires, &fails, &exp, &got) {
+            return Some(json!({"kind":"faults","wires_hex":wires.iter().map(|w| hex(w)).collect::<Vec<_>>(),
+                "wires_shown":wires.iter().map(|w| show(w)).collect::<Vec<_>>(),"fail_write_at":fails,"cuts":cuts,"expected":exp,"got":got}));
+        }
+    }
+    None
+}
+
 struct Rng(u64);
 impl Rng {
     fn next(&mut self) -> u64 {
@@ -544,6 +635,7 @@ fn main() {
             "idl" => search_idl(seed, budget),
             "send" => search_send(seed, budget / 4),
             "fair" => search_fair(seed, budget / 40),
+            "faults" => search_faults(seed, budget / 10),
             _ => panic!("unknown kind"),
         };
         match found {
@@ -577,6 +669,17 @@ fn main() {
                 std::process::exit(1);
             }
             println!("REPLAY: passes on the real code");
+        }
+        Some("faults") => {
+            let wires: Vec<Vec<u8>> = w["wires_hex"].as_array().unwrap().iter().map(|x| unhex(x.as_str().unwrap())).collect();
+            let cuts: Vec<usize> = w["cuts"].as_array().unwrap().iter().map(|x| x.as_u64().unwrap() as usize).collect();
+            let fails: Vec<Option<usize>> = w["fail_write_at"].as_array().unwrap().iter().map(|x| x.as_u64().map(|v| v as usize)).collect();
+            let (exp, got) = run_faults(&wires, &fails, &cuts);
+            for (w, f) in wires.iter().zip(&fails) { println!("wire = {}   failing write = {f:?}", show(w)); }
+            println!("expected = {exp:?}");
+            println!("got      = {got:?}");
+            if !faults_ok(&wires, &fails, &exp, &got) { println!("REPLAY: FAILS on the real code"); std::process::exit(1); }
+            println!("REPLAY: passes on the real code (healthy connections exact, faulty ones a prefix)");
         }
         Some("fair") => {
             let counts: Vec<usize> = w["counts"].as_array().unwrap().iter().map(|x| x.as_u64().unwrap() as usize).collect();
